@@ -553,9 +553,23 @@ func (p *jsonPathParser) _createBasicCompareQuery(
 	}
 }
 
+func (p *jsonPathParser) compareParameterRank(param *syntaxBasicCompareParameter) int {
+	if _, ok := param.param.(*syntaxQueryParamLiteral); ok {
+		return 2
+	}
+	if param.isLiteral {
+		return 1
+	}
+	return 0
+}
+
+func (p *jsonPathParser) isSwapRequired(leftParam, rightParam *syntaxBasicCompareParameter) bool {
+	return p.compareParameterRank(leftParam) > p.compareParameterRank(rightParam)
+}
+
 func (p *jsonPathParser) pushCompareEQ(
 	leftParam, rightParam *syntaxBasicCompareParameter) {
-	if leftParam.isLiteral {
+	if p.isSwapRequired(leftParam, rightParam) {
 		rightParam, leftParam = leftParam, rightParam
 	}
 
@@ -593,8 +607,8 @@ func (p *jsonPathParser) pushCompareNE(
 
 func (p *jsonPathParser) pushCompareGE(
 	leftParam, rightParam *syntaxBasicCompareParameter) {
-	if leftParam.isLiteral {
-		p.pushCompareLE(rightParam, leftParam)
+	if p.isSwapRequired(leftParam, rightParam) {
+		p.push(p._createBasicCompareQuery(rightParam, leftParam, &syntaxCompareLE{}))
 		return
 	}
 	p.push(p._createBasicCompareQuery(leftParam, rightParam, &syntaxCompareGE{}))
@@ -602,8 +616,8 @@ func (p *jsonPathParser) pushCompareGE(
 
 func (p *jsonPathParser) pushCompareGT(
 	leftParam, rightParam *syntaxBasicCompareParameter) {
-	if leftParam.isLiteral {
-		p.pushCompareLT(rightParam, leftParam)
+	if p.isSwapRequired(leftParam, rightParam) {
+		p.push(p._createBasicCompareQuery(rightParam, leftParam, &syntaxCompareLT{}))
 		return
 	}
 	p.push(p._createBasicCompareQuery(leftParam, rightParam, &syntaxCompareGT{}))
@@ -611,8 +625,8 @@ func (p *jsonPathParser) pushCompareGT(
 
 func (p *jsonPathParser) pushCompareLE(
 	leftParam, rightParam *syntaxBasicCompareParameter) {
-	if leftParam.isLiteral {
-		p.pushCompareGE(rightParam, leftParam)
+	if p.isSwapRequired(leftParam, rightParam) {
+		p.push(p._createBasicCompareQuery(rightParam, leftParam, &syntaxCompareGE{}))
 		return
 	}
 	p.push(p._createBasicCompareQuery(leftParam, rightParam, &syntaxCompareLE{}))
@@ -620,8 +634,8 @@ func (p *jsonPathParser) pushCompareLE(
 
 func (p *jsonPathParser) pushCompareLT(
 	leftParam, rightParam *syntaxBasicCompareParameter) {
-	if leftParam.isLiteral {
-		p.pushCompareGT(rightParam, leftParam)
+	if p.isSwapRequired(leftParam, rightParam) {
+		p.push(p._createBasicCompareQuery(rightParam, leftParam, &syntaxCompareGT{}))
 		return
 	}
 	p.push(p._createBasicCompareQuery(leftParam, rightParam, &syntaxCompareLT{}))
